@@ -1,12 +1,183 @@
 (* C18 - Minting follows the emission schedule and every minted coin is allocated.
-   Property theorems only; each is closed by a lemma from C18/Proofs.v. *)
+   Property theorems only; each is closed by a lemma from C18/Proofs.v or C18/ProofsRun.v.
+
+   Model (C18/Model.v): [step cfg s (same_id, epoch)] is one AfterEpochEnd call of the mint keeper run atomically
+   (state unchanged on error), [run] folds it over a history of calls.  [valid_cfg] is Params.Validate
+   (proportions sum to one, weights positive and summing to one, factor in [0,1], period > 0, start >= 0).
+   All theorems hold for every configuration, every initial state with a non-negative provision and every history. *)
 From Coq Require Import ZArith List Bool.
 Import ListNotations.
-From Osmo Require Import Base.DecModel C18.Model C18.Proofs.
+From Osmo Require Import Base.DecModel C18.Model C18.Proofs C18.ProofsRun C18.Witness.
 Open Scope Z_scope.
 
+(* ------------------------------------------------------------------------------------------------------------ *)
 (* nothing is minted, moved or rescheduled before the start epoch, nor for a foreign epoch identifier *)
 Theorem C18_nothing_before_start : forall cfg s same_id e,
   same_id = false \/ e < p_start cfg -> step cfg s (same_id, e) = (s, 0).
 Proof. exact step_before_start. Qed.
 Print Assumptions C18_nothing_before_start.
+
+(* the mint module account is empty after every call of every history (it keeps whatever it held, i.e. nothing) *)
+Theorem C18_mint_account_empty_after : forall cfg s calls,
+  valid_cfg cfg -> 0 <= s_prov s -> bal (s_bank s) AMint = 0 ->
+  bal (s_bank (run cfg s calls)) AMint = 0.
+Proof. intros cfg s calls V Hp H0. rewrite run_mint_account by assumption. exact H0. Qed.
+Print Assumptions C18_mint_account_empty_after.
+
+(* split_amounts: at every call of every history that is a mint epoch end at or after the start epoch and succeeds,
+   with M = integer part of the current provision (after a reduction that is due), dev = trunc(M * developer proportion):
+   when DistributeMintedCoin reaches its hook (bank [b1]) the fee collector got exactly trunc(M*staking), the
+   pool-incentives account exactly trunc(M*pool), every receiver address exactly the sum of trunc(dev*w) over its
+   entries, the vesting account paid exactly these, and the community pool got the remainder
+   M - staking - pool - dev (>= its own truncated share) plus the developer parts addressed to "" (all of dev when
+   there are no receivers); the mint account is as before; the hook then only forwards pool-incentives funds
+   ([hook_rel]: other accounts, supply and offset untouched, pool + incentives + distribution conserved). *)
+Theorem C18_split_amounts : forall cfg s calls pre c post,
+  valid_cfg cfg -> 0 <= s_prov s -> calls = pre ++ c :: post ->
+  let sj := run cfg s pre in
+  let sj' := fst (step cfg sj c) in
+  fst c = true -> p_start cfg <= snd c -> snd (step cfg sj c) = 0 ->
+  let M := minted_at cfg sj (snd c) in
+  M = d_truncate_int (s_prov sj') /\
+  exists b1, minted_epoch cfg M (s_bank sj) b1 (s_bank sj').
+Proof. exact split_amounts. Qed.
+Print Assumptions C18_split_amounts.
+Print minted_epoch.
+Print hook_rel.
+
+(* the same, read off the final state of the call: exact amounts for staking rewards, receivers and the vesting
+   account; pool incentives + incentives + community pool together hold the rest *)
+Theorem C18_split_final : forall cfg s e s',
+  valid_cfg cfg -> 0 <= s_prov s -> p_start cfg <= e -> after_epoch_end cfg s true e = Ok s' ->
+  let M := minted_at cfg s e in
+  let b := s_bank s in let b' := s_bank s' in
+  bal b' AFee = bal b AFee + share M (p_staking cfg) /\
+  (forall i, bal b' (ARecv i) = bal b (ARecv i) + paid_to i (dev_of cfg M) (p_recv cfg)) /\
+  bal b' AVest = bal b AVest - dev_paid cfg (dev_of cfg M) /\
+  bal b' APool + bal b' AInc + bal b' ADistr =
+    bal b APool + bal b AInc + bal b ADistr + share M (p_pool cfg) + comm_of cfg M + dev_to_community cfg (dev_of cfg M) /\
+  cpool b' - bal b' ADistr = cpool b - bal b ADistr /\
+  share M (p_comm cfg) <= comm_of cfg M /\
+  bal b' AMint = bal b AMint.
+Proof. exact split_final. Qed.
+Print Assumptions C18_split_final.
+
+(* reduction_exactly_at: over consecutive successful epochs e0, e0+1, ... beginning no later than the start epoch,
+   the provision is multiplied by the reduction factor at the epochs start + k*period (k >= 1) and at no other;
+   after epoch e the provision is the initial one reduced (e - start) / period times and the marker sits on the grid *)
+Theorem C18_reduction_exactly_at : forall cfg s e0 n,
+  valid_cfg cfg -> e0 <= p_start cfg -> all_ok cfg s (consec e0 (S n)) ->
+  let e := e0 + Z.of_nat n in
+  let before := run cfg s (consec e0 n) in
+  let after := run cfg s (consec e0 (S n)) in
+  p_start cfg <= e ->
+  (reduces cfg before e = true <-> exists k, 1 <= k /\ e = p_start cfg + k * p_period cfg) /\
+  s_prov after = (if reduces cfg before e then d_mul (s_prov before) (p_factor cfg) else s_prov before) /\
+  s_last after = p_start cfg + reductions_until cfg e * p_period cfg /\
+  s_prov after = iter_reduce (Z.to_nat (reductions_until cfg e)) (p_factor cfg) (s_prov s).
+Proof. exact reduction_exactly_at. Qed.
+Print Assumptions C18_reduction_exactly_at.
+
+(* bank_supply_delta and reported_supply_delta for one successful minting epoch:
+   bank supply grows by minted - dev (the developer share is burnt and paid from the vesting account);
+   supply + offset grows by minted - r with r = dev - sum_i trunc(dev * w_i), 0 <= r < #receivers, r = 0 without receivers *)
+Theorem C18_bank_supply_delta : forall cfg s e s',
+  valid_cfg cfg -> 0 <= s_prov s -> p_start cfg <= e -> after_epoch_end cfg s true e = Ok s' ->
+  supply (s_bank s') = supply (s_bank s) + minted_at cfg s e - dev_of cfg (minted_at cfg s e).
+Proof. exact bank_supply_delta. Qed.
+Print Assumptions C18_bank_supply_delta.
+
+Theorem supply_growth_partial : forall cfg s e s',
+  valid_cfg cfg -> 0 <= s_prov s -> p_start cfg <= e -> after_epoch_end cfg s true e = Ok s' ->
+  let M := minted_at cfg s e in
+  let r := dev_of cfg M - dev_paid cfg (dev_of cfg M) in
+  reported s' = reported s + M - r /\
+  0 <= r /\ (p_recv cfg = [] -> r = 0) /\ (p_recv cfg <> [] -> r < Z.of_nat (length (p_recv cfg))).
+Proof. exact reported_supply_delta. Qed.
+Print Assumptions supply_growth_partial.
+
+(* the same summed over any history: with m = total minted, d = total developer share, rr = total remainder and
+   k minting epochs, supply = supply0 + m - d, supply + offset = reported0 + m - rr, 0 <= rr <= k * (#receivers - 1) *)
+Theorem C18_cumulative_supply : forall cfg calls s,
+  valid_cfg cfg -> 0 <= s_prov s ->
+  let '(m, d, rr, k) := totals cfg s calls in
+  supply (s_bank (run cfg s calls)) = supply (s_bank s) + m - d /\
+  reported (run cfg s calls) = reported s + m - rr /\
+  0 <= rr /\ (p_recv cfg = [] -> rr = 0) /\
+  rr <= k * (Z.of_nat (length (p_recv cfg)) - 1) + (if p_recv cfg then k else 0) /\ 0 <= k.
+Proof. exact cumulative_supply. Qed.
+Print Assumptions C18_cumulative_supply.
+
+(* ------------------------------------------------------------------------------------------------------------ *)
+(* The property as stated: every call of every history behaves as above AND the reported supply grows by exactly the
+   minted amount.  The last conjunct is false of the faithful model (finding F3). *)
+Definition exact_supply_growth : Prop :=
+  forall cfg s calls pre c post,
+    valid_cfg cfg -> 0 <= s_prov s -> calls = pre ++ c :: post ->
+    let sj := run cfg s pre in
+    mints cfg sj c = true ->
+    reported (fst (step cfg sj c)) = reported sj + minted_at cfg sj (snd c).
+
+Definition C18_full : Prop :=
+  (forall cfg s calls pre c post, valid_cfg cfg -> 0 <= s_prov s -> calls = pre ++ c :: post ->
+     call_spec cfg (run cfg s pre) c) /\
+  (forall cfg s calls, valid_cfg cfg -> 0 <= s_prov s -> bal (s_bank s) AMint = 0 ->
+     bal (s_bank (run cfg s calls)) AMint = 0) /\
+  (forall cfg s e0 n, valid_cfg cfg -> e0 <= p_start cfg -> all_ok cfg s (consec e0 (S n)) ->
+     let e := e0 + Z.of_nat n in p_start cfg <= e ->
+     (reduces cfg (run cfg s (consec e0 n)) e = true <-> exists k, 1 <= k /\ e = p_start cfg + k * p_period cfg)) /\
+  exact_supply_growth.
+
+(* everything except the last conjunct is proved (the last one is replaced by supply_growth_partial with the tight
+   bound 0 <= r < #receivers) *)
+Theorem C18_partial :
+  (forall cfg s calls pre c post, valid_cfg cfg -> 0 <= s_prov s -> calls = pre ++ c :: post ->
+     call_spec cfg (run cfg s pre) c) /\
+  (forall cfg s calls, valid_cfg cfg -> 0 <= s_prov s -> bal (s_bank s) AMint = 0 ->
+     bal (s_bank (run cfg s calls)) AMint = 0) /\
+  (forall cfg s e0 n, valid_cfg cfg -> e0 <= p_start cfg -> all_ok cfg s (consec e0 (S n)) ->
+     let e := e0 + Z.of_nat n in p_start cfg <= e ->
+     (reduces cfg (run cfg s (consec e0 n)) e = true <-> exists k, 1 <= k /\ e = p_start cfg + k * p_period cfg)).
+Proof.
+  split; [intros; eapply every_call_of_every_history; eassumption|].
+  split; [exact C18_mint_account_empty_after|].
+  intros cfg s e0 n V He0 Hok e Hs. apply (reduction_exactly_at cfg s e0 n V He0 Hok Hs).
+Qed.
+Print Assumptions C18_partial.
+
+(* witness of finding F3 (C18/Witness.v): default proportions 0.4/0.3/0.2/0.1, three receivers with weights
+   0.333333333333333333 / 0.333333333333333333 / 0.333333333333333334, provisions 1000003.7:
+   minted 1000003, dev 200000, each receiver 66666, r = 2: supply + offset grows by 1000001.
+   The same case is replayed on the implementation on every run (props/c18.py WITNESS). *)
+Theorem supply_exact_refuted : ~ exact_supply_growth.
+Proof.
+  intros H. specialize (H w_cfg w_state [(true, 1)] [] (true, 1) [] w_cfg_valid w_prov eq_refl w_mints).
+  cbn [run snd] in H. rewrite w_reported_after, w_reported_expected in H. discriminate H.
+Qed.
+Print Assumptions supply_exact_refuted.
+
+Theorem C18_full_refuted : ~ C18_full.
+Proof. intros [_ [_ [_ H]]]. exact (supply_exact_refuted H). Qed.
+Print Assumptions C18_full_refuted.
+
+(* ------------------------------------------------------------------------------------------------------------ *)
+(* non-vacuity *)
+
+(* the hypotheses of the per-epoch theorems are met by the witness, the call succeeds, and the split is non-trivial *)
+Example C18_nonvacuous_epoch :
+  valid_cfg w_cfg /\ 0 <= s_prov w_state /\ p_start w_cfg <= 1 /\
+  (exists s', after_epoch_end w_cfg w_state true 1 = Ok s' /\
+     bal (s_bank s') AFee = 400001 /\ bal (s_bank s') (ARecv 2) = 66666 /\ cpool (s_bank s') = 400002 /\
+     bal (s_bank s') AMint = 0 /\ supply (s_bank s') = 225000000800003) /\
+  minted_at w_cfg w_state 1 = 1000003 /\ dev_remainder w_cfg 1000003 = 2.
+Proof. exact w_epoch. Qed.
+
+(* a schedule that really reduces: start 2, period 3, factor 0.666666666666666667, history of 12 consecutive epochs
+   from epoch 1; all calls succeed, reductions fall on epochs 5, 8 and 11 and on no other *)
+Example C18_nonvacuous_schedule :
+  valid_cfg nv_cfg /\ 1 <= p_start nv_cfg /\ all_ok nv_cfg nv_state (consec 1 12) /\
+  map (fun n => reduces nv_cfg (run nv_cfg nv_state (consec 1 n)) (1 + Z.of_nat n)) (seq 0 12)
+    = [false; false; false; false; true; false; false; true; false; false; true; false] /\
+  s_prov (run nv_cfg nv_state (consec 1 12)) = 243531202435312024718417 /\
+  s_last (run nv_cfg nv_state (consec 1 12)) = 11.
+Proof. exact nv_schedule. Qed.
